@@ -687,6 +687,32 @@ struct Runner {
 			o << "end\n";
 			snap(k);
 #if VH_MANUAL
+#if VH_HISTORY
+			// the second instance is sometimes activated by replayEnter() of a one-request history whose destination lies off
+			// the default activation path below a plain composite region (so that the replay is sure to change something:
+			// a replay that changes nothing is out of contract — HFSM2_CHECKED — and answers false)
+			if (k == 1 && !envStr("VH_SKIP") && s.prng.chance(40)) {
+				std::vector<int> off;
+				for (int x = 1; x < STATE_COUNT; ++x)
+					for (int a = x; a > 0; a = STATES[a].parent)
+						if (STATES[STATES[a].parent].strategy == 0 && STATES[a].prong != 0) { off.push_back(x); break; }
+				if (!off.empty()) {
+					const int dest = off[s.prng.below(static_cast<unsigned>(off.size()))];
+					using Tr = typename std::decay<decltype(inst(k).previousTransitions()[0])>::type;
+					ManyT<Tr> one;
+					one.v.push_back(Tr{static_cast<StateID>(dest), hfsm2::TransitionType::CHANGE});
+					o << "op " << k << " replayenter " << transitionList(one) << "\n";
+					enterCall(k);
+					bool res;
+					s.firstActivation = true;
+					{ ApiScope scope; res = inst(k).replayEnter(&one.v[0], 1); }
+					s.firstActivation = false;
+					o << "ret " << (res ? 1 : 0) << "\n" << "end\n";
+					snap(k);
+					if (res) continue;
+				}
+			}
+#endif
 			o << "op " << k << " enter\n";
 			enterCall(k);
 			s.firstActivation = true;
